@@ -302,3 +302,26 @@ impl TransportManager {
         self.local_peer_id
     }
 }
+
+impl TransportManager {
+    /// Verification hook (Kademlia glue harness): overwrite what the manager believes about
+    /// `peer`, which decides the immediate result of `TransportManagerHandle::dial`.
+    /// `tag`: 0 unknown peer (no address), 1 disconnected with `address`, 2 connected,
+    /// 3 dialing.
+    pub fn verif_force_peer(&self, peer: PeerId, tag: usize, address: Multiaddr) {
+        let mut peers = self.peers.write();
+        if tag == 0 {
+            peers.remove(&peer);
+            return;
+        }
+        let record = ConnectionRecord::new(peer, address.clone(), ConnectionId::from(0usize));
+        let mut addresses = AddressStore::new();
+        addresses.insert(AddressRecord::new(&peer, address, 0));
+        let state = match tag {
+            1 => PeerState::Disconnected { dial_record: None },
+            2 => PeerState::Connected { record, secondary: None },
+            _ => PeerState::Dialing { dial_record: record },
+        };
+        peers.insert(peer, PeerContext { state, addresses });
+    }
+}
